@@ -1168,3 +1168,632 @@ theorem pop_roundtrip (cfg : Cfg) (top : List Comp) (p : Pop) (hok : PopOK p) :
     · simp [semPop, rPop, he, hn]
 
 end NmlVerif.Hdf5
+
+namespace NmlVerif.Hdf5
+set_option linter.unusedSimpArgs false
+
+/-! ## composition at network level -/
+
+inductive SItem where
+  | proj (p : SemProj)
+  | eproj (p : SemProj)
+  | cproj (p : SemProj)
+  | il (l : SemIL)
+  | nothing
+
+def semItem : Item → SItem
+  | .proj p => .proj (semProj p)
+  | .eproj p => .eproj (semGProj p)
+  | .cproj p => .cproj (semGProj p)
+  | .il l => .il (semIL l)
+  | .nothing => .nothing
+
+def SItem.proj? : SItem → Option SemProj | .proj p => some p | _ => none
+def SItem.eproj? : SItem → Option SemProj | .eproj p => some p | _ => none
+def SItem.cproj? : SItem → Option SemProj | .cproj p => some p | _ => none
+def SItem.il? : SItem → Option SemIL | .il p => some p | _ => none
+
+theorem sel_proj (items : List Item) :
+    (items.filterMap Item.proj?).map semProj = (items.map semItem).filterMap SItem.proj? := by
+  induction items with
+  | nil => rfl
+  | cons it rest ih =>
+    cases it <;> simp only [List.filterMap_cons, List.map_cons, semItem, Item.proj?, SItem.proj?, ih]
+
+theorem sel_eproj (items : List Item) :
+    (items.filterMap Item.eproj?).map semGProj = (items.map semItem).filterMap SItem.eproj? := by
+  induction items with
+  | nil => rfl
+  | cons it rest ih =>
+    cases it <;> simp only [List.filterMap_cons, List.map_cons, semItem, Item.eproj?, SItem.eproj?, ih]
+
+theorem sel_cproj (items : List Item) :
+    (items.filterMap Item.cproj?).map semGProj = (items.map semItem).filterMap SItem.cproj? := by
+  induction items with
+  | nil => rfl
+  | cons it rest ih =>
+    cases it <;> simp only [List.filterMap_cons, List.map_cons, semItem, Item.cproj?, SItem.cproj?, ih]
+
+theorem sel_il (items : List Item) :
+    (items.filterMap Item.il?).map semIL = (items.map semItem).filterMap SItem.il? := by
+  induction items with
+  | nil => rfl
+  | cons it rest ih =>
+    cases it <;> simp only [List.filterMap_cons, List.map_cons, semItem, Item.il?, SItem.il?, ih]
+
+theorem collect_ok : ∀ (seen : List String) (bodies : List (String × Except Err Leaf)) (leaves : List Leaf),
+    bodies.map (·.2) = leaves.map Except.ok → (bodies.map (·.1)).Nodup → (∀ b ∈ bodies, b.1 ∉ seen) →
+    collect seen bodies = .ok leaves
+  | _, [], leaves, h, _, _ => by
+    cases leaves with
+    | nil => rfl
+    | cons _ _ => simp at h
+  | seen, (nm, body) :: rest, leaves, h, hnd, hs => by
+    cases leaves with
+    | nil => simp at h
+    | cons l ls =>
+      simp only [List.map_cons, List.cons.injEq] at h
+      obtain ⟨hb, hrest⟩ := h
+      subst hb
+      have hns : nm ∉ seen := hs (nm, .ok l) (by simp)
+      simp only [List.map_cons, List.nodup_cons] at hnd
+      have ih := collect_ok (nm :: seen) rest ls hrest hnd.2 (by
+        intro b hb hmem
+        rcases List.mem_cons.mp hmem with he | hm
+        · exact hnd.1 (he ▸ List.mem_map.mpr ⟨b, hb, rfl⟩)
+        · exact hs b (by simp [hb]) hm)
+      simp only [collect, hns, if_false, ih]
+
+theorem seg_rt {X : Type} (enc : X → Except Err Leaf) (nameOf : X → String)
+    (f : Leaf → Except Err (Item × List (Option Comp))) (G : X → SItem) (top : List Comp) :
+    ∀ xs : List X,
+      (∀ x ∈ xs, ∃ leaf it objs, enc x = .ok leaf ∧ leaf.name = nameOf x ∧ f leaf = .ok (it, objs) ∧
+        (∀ c, some c ∈ objs → c ∈ top) ∧ semItem it = G x) →
+      ∃ leaves ys, xs.map enc = leaves.map Except.ok ∧ leaves.map (·.name) = xs.map nameOf ∧ mapE f leaves = .ok ys ∧
+        ys.map (fun y => semItem y.1) = xs.map G ∧ (∀ y ∈ ys, ∀ c, some c ∈ y.2 → c ∈ top)
+  | [], _ => ⟨[], [], rfl, rfl, rfl, rfl, by simp⟩
+  | x :: xs, h => by
+    obtain ⟨leaf, it, objs, h1, h2, h3, h4, h5⟩ := h x (by simp)
+    obtain ⟨leaves, ys, i1, i2, i3, i4, i5⟩ := seg_rt enc nameOf f G top xs (fun y hy => h y (by simp [hy]))
+    refine ⟨leaf :: leaves, (it, objs) :: ys, by simp [h1, i1], by simp [h2, i2], by simp [mapE, h3, i3],
+      by simp [h5, i4], ?_⟩
+    intro y hy c hc
+    rcases List.mem_cons.mp hy with rfl | hy
+    · exact h4 c hc
+    · exact i5 y hy c hc
+
+
+def PopsRel : List Pop → List Pop → Prop
+  | [], [] => True
+  | p :: ps, q :: qs => q.id = p.id ∧ (q.insts = [] ↔ p.insts = []) ∧ PopsRel ps qs
+  | _, _ => False
+
+theorem findPop_rel : ∀ (ps qs : List Pop) (id : String) (p : Pop), PopsRel ps qs →
+    ps.find? (fun p => p.id = id) = some p → ∃ q, findPop qs id = .ok q ∧ (q.insts = [] ↔ p.insts = [])
+  | [], _, _, _, _, h => by simp at h
+  | p0 :: ps, [], _, _, hr, _ => by simp [PopsRel] at hr
+  | p0 :: ps, q0 :: qs, id, p, hr, h => by
+    obtain ⟨hid, hins, hrest⟩ := hr
+    simp only [List.find?_cons] at h
+    by_cases he : p0.id = id
+    · simp only [he, decide_true] at h
+      cases h
+      exact ⟨q0, by simp [findPop, List.find?_cons, hid, he], hins⟩
+    · simp only [he, decide_false] at h
+      obtain ⟨q, hq, hqi⟩ := findPop_rel ps qs id p hrest h
+      refine ⟨q, ?_, hqi⟩
+      unfold findPop at hq ⊢
+      simp only [List.find?_cons, hid, he, decide_false]
+      exact hq
+
+theorem pops_rt (cfg : Cfg) (top : List Comp) :
+    ∀ ps : List Pop, (∀ p ∈ ps, PopOK p) →
+      ∃ leaves ys, ps.map (encodePop cfg) = leaves.map Except.ok ∧
+        leaves.map (·.name) = ps.map (fun p => popLeafName p.id) ∧
+        mapE (decodePop cfg top) leaves = .ok ys ∧
+        ys.map (fun y => semPop y.1) = ps.map (fun p => rPop cfg.r (semPop p)) ∧
+        (∀ y ∈ ys, ∀ c, y.2 = some c → c ∈ top) ∧ PopsRel ps (ys.map (·.1))
+  | [], _ => ⟨[], [], rfl, rfl, rfl, rfl, by simp, trivial⟩
+  | p :: ps, h => by
+    obtain ⟨leaf, p', h1, h2, h3, h4, _, h6, h7⟩ := pop_roundtrip cfg top p (h p (by simp))
+    obtain ⟨leaves, ys, i1, i2, i3, i4, i5, i6⟩ := pops_rt cfg top ps (fun q hq => h q (by simp [hq]))
+    refine ⟨leaf :: leaves, (p', getById top p.comp) :: ys, by simp [h1, i1], by simp [h2, i2], by simp [mapE, h3, i3],
+      by simp [h7, i4], ?_, ?_⟩
+    · intro y hy c hc
+      rcases List.mem_cons.mp hy with rfl | hy
+      · exact getById_mem hc
+      · exact i5 y hy c hc
+    · exact ⟨h4, h6, i6⟩
+
+def popOf (n : Net) (id : String) : Option Pop := n.pops.find? (fun p => p.id = id)
+
+def leafNames (n : Net) : List String :=
+  n.pops.map (fun p => popLeafName p.id) ++
+  (n.projs.map (fun p => projLeafName p.id) ++ n.eprojs.map (fun p => projLeafName p.id) ++
+   n.cprojs.map (fun p => projLeafName p.id) ++ n.ilists.map (fun l => ilLeafName l.id))
+
+structure GSupp (cfg : Cfg) (cont : Bool) (top : List Comp) (n : Net) (p : GProj) : Prop where
+  ok : GOK cfg cont p
+  rest : ∃ c0 a b, firstConn p = .ok c0 ∧ (∀ c ∈ p.all, c.syn = c0.syn ∧ c.preComp = c0.preComp) ∧
+    popOf n p.pre = some a ∧ popOf n p.post = some b ∧
+    (cont = true → ∃ cp, getById top c0.preComp = some cp) ∧
+    (a.insts = [] → b.insts = [] → ∀ c ∈ p.all, cfg.r (wOf c) = 1)
+
+structure NetOK (cfg : Cfg) (top : List Comp) (n : Net) : Prop where
+  noSyn : n.nSynConn = 0
+  noExp : n.nExplicit = 0
+  pops : ∀ p ∈ n.pops, PopOK p
+  names : (leafNames n).Nodup
+  kPop : ∀ p ∈ n.pops, kindOf (popLeafName p.id) = .pop
+  kProj : ∀ p ∈ n.projs, kindOf (projLeafName p.id) = .proj
+  kEProj : ∀ p ∈ n.eprojs, kindOf (projLeafName p.id) = .proj
+  kCProj : ∀ p ∈ n.cprojs, kindOf (projLeafName p.id) = .proj
+  kIL : ∀ l ∈ n.ilists, kindOf (ilLeafName l.id) = .il
+  projs : ∀ p ∈ n.projs, ProjOK cfg.r p ∧ ∃ a b, popOf n p.pre = some a ∧ popOf n p.post = some b
+  eprojs : ∀ p ∈ n.eprojs, GSupp cfg false top n p
+  cprojs : ∀ p ∈ n.cprojs, GSupp cfg true top n p
+  ils : ∀ l ∈ n.ilists, ILOK cfg l ∧ ∃ a, popOf n l.pop = some a
+
+
+structure CfgOK (cfg : Cfg) : Prop where
+  half : cfg.r (1/2) = 1/2
+  one : cfg.r 1 = 1
+  zero : cfg.r 0 = 0
+  unweighted : cfg.unweighted = 1
+  idCol0 : cfg.idCol0 = true
+  notesAlways : cfg.notesAlways = false
+
+def GProjs (cont : Bool) (n : Net) : List GProj := if cont then n.cprojs else n.eprojs
+
+theorem seg_projs (cfg : Cfg) (hc : CfgOK cfg) (top : List Comp) (n : Net) (hok : NetOK cfg top n) (pops' : List Pop)
+    (hrel : PopsRel n.pops pops') :
+    ∀ p ∈ n.projs, ∃ leaf it objs, encodeProj cfg p = .ok leaf ∧ leaf.name = projLeafName p.id ∧
+      decodeOther cfg top pops' leaf = .ok (it, objs) ∧ (∀ c, some c ∈ objs → c ∈ top) ∧
+      semItem it = SItem.proj (rProj cfg.r (semProj p)) := by
+  intro p hp
+  obtain ⟨hpok, a, b, ha, hb⟩ := hok.projs p hp
+  obtain ⟨a', ha', _⟩ := findPop_rel _ _ _ _ hrel ha
+  obtain ⟨b', hb', _⟩ := findPop_rel _ _ _ _ hrel hb
+  obtain ⟨leaf, p', objs, h1, h2, h3, h4, h5⟩ :=
+    proj_roundtrip cfg hc.half hc.one hc.zero hc.unweighted top pops' p a' b' ha' hb' hpok
+  refine ⟨leaf, .proj p', objs, h1, h2, ?_, h4, by simp [semItem, h5]⟩
+  simp only [decodeOther, h2, hok.kProj p hp, h3]
+
+theorem seg_gprojs (cfg : Cfg) (hc : CfgOK cfg) (cont : Bool) (top : List Comp) (n : Net) (pops' : List Pop)
+    (hrel : PopsRel n.pops pops') (ps : List GProj) (hk : ∀ p ∈ ps, kindOf (projLeafName p.id) = .proj)
+    (hs : ∀ p ∈ ps, GSupp cfg cont top n p) :
+    ∀ p ∈ ps, ∃ leaf it objs, encodeGProj cfg cont p = .ok leaf ∧ leaf.name = projLeafName p.id ∧
+      decodeOther cfg top pops' leaf = .ok (it, objs) ∧ (∀ c, some c ∈ objs → c ∈ top) ∧
+      semItem it = (if cont then SItem.cproj (canonProj (rProj cfg.r (semGProj p)))
+                    else SItem.eproj (canonProj (rProj cfg.r (semGProj p)))) := by
+  intro p hp
+  obtain ⟨hgok, c0, a, b, hf, huni, ha, hb, hdef, hnw⟩ := hs p hp
+  obtain ⟨a', ha', hai⟩ := findPop_rel _ _ _ _ hrel ha
+  obtain ⟨b', hb', hbi⟩ := findPop_rel _ _ _ _ hrel hb
+  obtain ⟨leaf, p', objs, h1, h2, h3, h4, h5⟩ :=
+    gproj_roundtrip cfg hc.one hc.zero hc.unweighted hc.idCol0 cont top pops' p c0 a' b' hf ha' hb' hgok huni hdef
+      (fun x y => hnw (hai.mp x) (hbi.mp y))
+  refine ⟨leaf, (if cont then Item.cproj p' else Item.eproj p'), objs, h1, h2, ?_, h4, ?_⟩
+  · simp only [decodeOther, h2, hk p hp, h3]
+  · cases cont <;> simp [semItem, h5]
+
+theorem seg_ils (cfg : Cfg) (hc : CfgOK cfg) (top : List Comp) (n : Net) (hok : NetOK cfg top n) (pops' : List Pop)
+    (hrel : PopsRel n.pops pops') :
+    ∀ l ∈ n.ilists, ∃ leaf it objs, encodeIList cfg l = .ok leaf ∧ leaf.name = ilLeafName l.id ∧
+      decodeOther cfg top pops' leaf = .ok (it, objs) ∧ (∀ c, some c ∈ objs → c ∈ top) ∧
+      semItem it = SItem.il (rIL cfg.r (semIL l)) := by
+  intro l hl
+  obtain ⟨hlok, a, ha⟩ := hok.ils l hl
+  obtain ⟨a', ha', _⟩ := findPop_rel _ _ _ _ hrel ha
+  obtain ⟨leaf, l', objs, h1, h2, h3, h4, h5⟩ := ilist_roundtrip cfg hc.one hc.unweighted top pops' l a' ha' hlok
+  refine ⟨leaf, .il l', objs, h1, h2, ?_, h4, by simp [semItem, h5]⟩
+  simp only [decodeOther, h2, hok.kIL l hl, h3]
+
+
+theorem kinds_of_names {X : Type} (xs : List X) (nameOf : X → String) (leaves : List Leaf)
+    (h : leaves.map (·.name) = xs.map nameOf) (K : Kind) (hk : ∀ x ∈ xs, kindOf (nameOf x) = K) :
+    ∀ l ∈ leaves, kindOf l.name = K := by
+  intro l hl
+  have : l.name ∈ leaves.map (·.name) := List.mem_map.mpr ⟨l, hl, rfl⟩
+  rw [h] at this
+  obtain ⟨x, hx, he⟩ := List.mem_map.mp this
+  rw [← he]; exact hk x hx
+
+theorem netAttrs_id (cfg : Cfg) (n : Net) :
+    strAttr cfg ([("id", AttrV.str n.id)] ++ notesAttr cfg n.notes ++ tempAttr n.temperature) "id" = some n.id := by
+  simp [strAttr, lookupAttr]
+
+theorem netAttrs_notes (cfg : Cfg) (hna : cfg.notesAlways = false) (n : Net) :
+    nonEmpty (strAttr cfg ([("id", AttrV.str n.id)] ++ notesAttr cfg n.notes ++ tempAttr n.temperature) "notes") =
+      nonEmpty n.notes := by
+  cases hn : n.notes with
+  | none =>
+    cases ht : n.temperature with
+    | none => simp [strAttr, lookupAttr, notesAttr, tempAttr, nonEmpty, hna]
+    | some t =>
+      by_cases ht0 : t.length = 0 <;> simp [strAttr, lookupAttr, notesAttr, tempAttr, nonEmpty, hna, ht0]
+  | some s => simp [strAttr, lookupAttr, notesAttr, nonEmpty]
+
+theorem netAttrs_temp (cfg : Cfg) (hna : cfg.notesAlways = false) (n : Net) :
+    nonEmpty (strAttr cfg ([("id", AttrV.str n.id)] ++ notesAttr cfg n.notes ++ tempAttr n.temperature) "temperature") =
+      nonEmpty n.temperature := by
+  cases hn : n.notes with
+  | none =>
+    cases ht : n.temperature with
+    | none => simp [strAttr, lookupAttr, notesAttr, tempAttr, nonEmpty, hna]
+    | some t =>
+      by_cases ht0 : t.length = 0 <;> simp [strAttr, lookupAttr, notesAttr, tempAttr, nonEmpty, hna, ht0]
+  | some s =>
+    cases ht : n.temperature with
+    | none => simp [strAttr, lookupAttr, notesAttr, tempAttr, nonEmpty, hna]
+    | some t =>
+      by_cases ht0 : t.length = 0 <;> simp [strAttr, lookupAttr, notesAttr, tempAttr, nonEmpty, hna, ht0]
+
+
+theorem filterMap_none {α β : Type} (l : List α) : l.filterMap (fun _ => (none : Option β)) = [] := by
+  induction l with
+  | nil => rfl
+  | cons a as ih => simp [List.filterMap_cons, ih]
+
+theorem nonEmpty_idem (x : Option String) : nonEmpty (nonEmpty x) = nonEmpty x := by
+  cases x with
+  | none => rfl
+  | some s => by_cases h : s.length = 0 <;> simp [nonEmpty, h]
+
+theorem popBodies_snd (cfg : Cfg) (n : Net) : (popBodies cfg n).map (·.2) = n.pops.map (encodePop cfg) := by
+  simp [popBodies, List.map_map, Function.comp_def]
+
+theorem popBodies_fst (cfg : Cfg) (n : Net) : (popBodies cfg n).map (·.1) = n.pops.map (fun p => popLeafName p.id) := by
+  simp [popBodies, List.map_map, Function.comp_def]
+
+theorem otherBodies_snd (cfg : Cfg) (n : Net) : (otherBodies cfg n).map (·.2) =
+    n.projs.map (encodeProj cfg) ++ n.eprojs.map (encodeGProj cfg false) ++ n.cprojs.map (encodeGProj cfg true) ++
+      n.ilists.map (encodeIList cfg) := by
+  simp [otherBodies, List.map_map, Function.comp_def]
+
+theorem otherBodies_fst (cfg : Cfg) (n : Net) : (otherBodies cfg n).map (·.1) =
+    n.projs.map (fun p => projLeafName p.id) ++ n.eprojs.map (fun p => projLeafName p.id) ++
+      n.cprojs.map (fun p => projLeafName p.id) ++ n.ilists.map (fun l => ilLeafName l.id) := by
+  simp [otherBodies, List.map_map, Function.comp_def]
+
+theorem net_roundtrip (cfg : Cfg) (hc : CfgOK cfg) (top : List Comp) (n : Net) (hok : NetOK cfg top n) :
+    ∃ g n' objs, encodeNet cfg n = .ok g ∧ decodeNet cfg top g = .ok (n', objs) ∧
+      (∀ c, some c ∈ objs → c ∈ top) ∧ semNet n' = expectNet cfg.r (semNet n) := by
+  obtain ⟨lpop, ys, p1, p2, p3, p4, p5, prel⟩ := pops_rt cfg top n.pops hok.pops
+  obtain ⟨l1, y1, a1, a2, a3, a4, a5⟩ := seg_rt (encodeProj cfg) (fun p => projLeafName p.id)
+    (decodeOther cfg top (ys.map (·.1))) (fun p => SItem.proj (rProj cfg.r (semProj p))) top n.projs
+    (seg_projs cfg hc top n hok _ prel)
+  obtain ⟨l2, y2, b1, b2, b3, b4, b5⟩ := seg_rt (encodeGProj cfg false) (fun p => projLeafName p.id)
+    (decodeOther cfg top (ys.map (·.1))) (fun p => SItem.eproj (canonProj (rProj cfg.r (semGProj p)))) top n.eprojs
+    (by simpa using seg_gprojs cfg hc false top n _ prel n.eprojs hok.kEProj hok.eprojs)
+  obtain ⟨l3, y3, c1, c2, c3, c4, c5⟩ := seg_rt (encodeGProj cfg true) (fun p => projLeafName p.id)
+    (decodeOther cfg top (ys.map (·.1))) (fun p => SItem.cproj (canonProj (rProj cfg.r (semGProj p)))) top n.cprojs
+    (by simpa using seg_gprojs cfg hc true top n _ prel n.cprojs hok.kCProj hok.cprojs)
+  obtain ⟨l4, y4, d1, d2, d3, d4, d5⟩ := seg_rt (encodeIList cfg) (fun l => ilLeafName l.id)
+    (decodeOther cfg top (ys.map (·.1))) (fun l => SItem.il (rIL cfg.r (semIL l))) top n.ilists
+    (seg_ils cfg hc top n hok _ prel)
+  -- names
+  have hnames := hok.names
+  unfold leafNames at hnames
+  obtain ⟨hnd1, hnd2, hdisj⟩ := List.nodup_append.mp hnames
+  -- encode
+  have e1 : collect [] (popBodies cfg n) = .ok lpop := by
+    apply collect_ok
+    · rw [popBodies_snd]; exact p1
+    · rw [popBodies_fst]; exact hnd1
+    · intro b _ h; cases h
+  have e2 : collect ((popBodies cfg n).map (·.1)).reverse (otherBodies cfg n) = .ok (l1 ++ l2 ++ l3 ++ l4) := by
+    apply collect_ok
+    · rw [otherBodies_snd, a1, b1, c1, d1]; simp
+    · rw [otherBodies_fst]; exact hnd2
+    · intro b hb hmem
+      have hb1 : b.1 ∈ (otherBodies cfg n).map (·.1) := List.mem_map.mpr ⟨b, hb, rfl⟩
+      rw [otherBodies_fst] at hb1
+      rw [List.mem_reverse, popBodies_fst] at hmem
+      exact hdisj _ hmem _ hb1 rfl
+  have hkp : ∀ l ∈ lpop, kindOf l.name = .pop := kinds_of_names n.pops _ lpop p2 .pop hok.kPop
+  have hko : ∀ l ∈ l1 ++ l2 ++ l3 ++ l4, kindOf l.name = .proj ∨ kindOf l.name = .il := by
+    intro l hl
+    simp only [List.mem_append] at hl
+    rcases hl with ((hl | hl) | hl) | hl
+    · exact Or.inl (kinds_of_names n.projs _ l1 a2 .proj hok.kProj l hl)
+    · exact Or.inl (kinds_of_names n.eprojs _ l2 b2 .proj hok.kEProj l hl)
+    · exact Or.inl (kinds_of_names n.cprojs _ l3 c2 .proj hok.kCProj l hl)
+    · exact Or.inr (kinds_of_names n.ilists _ l4 d2 .il hok.kIL l hl)
+  have hamb : (lpop ++ (l1 ++ l2 ++ l3 ++ l4)).any (fun l => kindOf l.name = .ambiguous) = false := by
+    rw [List.any_eq_false]
+    intro l hl
+    rcases List.mem_append.mp hl with hl | hl
+    · simp [hkp l hl]
+    · rcases hko l hl with h | h <;> simp [h]
+  have hf1 : (lpop ++ (l1 ++ l2 ++ l3 ++ l4)).filter (fun l => kindOf l.name = .pop) = lpop := by
+    rw [List.filter_append, filter_all _ _ (fun l hl => by simp [hkp l hl]),
+      filter_none _ _ (fun l hl => by rcases hko l hl with h | h <;> simp [h])]
+    simp
+  have hf2 : (lpop ++ (l1 ++ l2 ++ l3 ++ l4)).filter (fun l => kindOf l.name ≠ .pop) = l1 ++ l2 ++ l3 ++ l4 := by
+    rw [List.filter_append, filter_none _ _ (fun l hl => by simp [hkp l hl]),
+      filter_all _ _ (fun l hl => by rcases hko l hl with h | h <;> simp [h])]
+    simp
+  have hm : mapE (decodeOther cfg top (ys.map (·.1))) (l1 ++ l2 ++ l3 ++ l4) = .ok (y1 ++ y2 ++ y3 ++ y4) :=
+    mapE_append_ok _ _ _ _ (mapE_append_ok _ _ _ _ (mapE_append_ok _ _ _ _ a3 b3) c3) d3
+  refine ⟨⟨[("id", .str n.id)] ++ notesAttr cfg n.notes ++ tempAttr n.temperature, lpop ++ (l1 ++ l2 ++ l3 ++ l4)⟩,
+    { id := n.id,
+      notes := nonEmpty (strAttr cfg ([("id", .str n.id)] ++ notesAttr cfg n.notes ++ tempAttr n.temperature) "notes"),
+      temperature := strAttr cfg ([("id", .str n.id)] ++ notesAttr cfg n.notes ++ tempAttr n.temperature) "temperature",
+      pops := ys.map (·.1),
+      projs := ((y1 ++ y2 ++ y3 ++ y4).map (·.1)).filterMap Item.proj?,
+      eprojs := ((y1 ++ y2 ++ y3 ++ y4).map (·.1)).filterMap Item.eproj?,
+      cprojs := ((y1 ++ y2 ++ y3 ++ y4).map (·.1)).filterMap Item.cproj?,
+      ilists := ((y1 ++ y2 ++ y3 ++ y4).map (·.1)).filterMap Item.il? },
+    ys.map (·.2) ++ ((y1 ++ y2 ++ y3 ++ y4).map (·.2)).flatten, ?_, ?_, ?_, ?_⟩
+  · simp only [encodeNet, e1, e2, hok.noSyn, hok.noExp, Nat.lt_irrefl, if_false]
+  · simp only [decodeNet, hamb, netAttrs_id, hf1, hf2, p3, hm, bind, Except.bind, pure, Except.pure,
+      Bool.false_eq_true, if_false]
+  · intro c hc
+    rcases List.mem_append.mp hc with hc | hc
+    · obtain ⟨y, hy, he⟩ := List.mem_map.mp hc
+      exact p5 y hy c he
+    · obtain ⟨os, hos, hco⟩ := List.mem_flatten.mp hc
+      obtain ⟨y, hy, rfl⟩ := List.mem_map.mp hos
+      simp only [List.mem_append] at hy
+      rcases hy with ((hy | hy) | hy) | hy
+      · exact a5 y hy c hco
+      · exact b5 y hy c hco
+      · exact c5 y hy c hco
+      · exact d5 y hy c hco
+  · have hitems : ((y1 ++ y2 ++ y3 ++ y4).map (·.1)).map semItem =
+        n.projs.map (fun p => SItem.proj (rProj cfg.r (semProj p))) ++
+        n.eprojs.map (fun p => SItem.eproj (canonProj (rProj cfg.r (semGProj p)))) ++
+        n.cprojs.map (fun p => SItem.cproj (canonProj (rProj cfg.r (semGProj p)))) ++
+        n.ilists.map (fun l => SItem.il (rIL cfg.r (semIL l))) := by
+      rw [List.map_map]
+      simp only [List.map_append]
+      rw [← a4, ← b4, ← c4, ← d4]
+      rfl
+    simp only [semNet, expectNet, sel_proj, sel_eproj, sel_cproj, sel_il, hitems, nonEmpty_idem,
+      netAttrs_notes cfg hc.notesAlways, netAttrs_temp cfg hc.notesAlways, List.map_map]
+    congr 1
+    all_goals first
+      | (rw [← p4, List.map_map]; rfl)
+      | simp [List.filterMap_append, List.filterMap_map, Function.comp_def, SItem.proj?, SItem.eproj?, SItem.cproj?,
+          SItem.il?, filterMap_none]
+
+end NmlVerif.Hdf5
+
+namespace NmlVerif.Hdf5
+set_option linter.unusedSimpArgs false
+
+/-! ## document level: attributes and the merge of the embedded top-level components -/
+
+theorem mem_addOne {tgt : List Comp} {c x : Comp} (h : x ∈ addOne tgt c) : x ∈ tgt ∨ x = c := by
+  unfold addOne at h
+  split at h
+  · exact Or.inl h
+  · rcases List.mem_append.mp h with h | h
+    · exact Or.inl h
+    · exact Or.inr (by simpa using h)
+
+theorem sub_addOne (tgt : List Comp) (c : Comp) : ∀ x ∈ tgt, x ∈ addOne tgt c := by
+  intro x hx
+  unfold addOne
+  split
+  · exact hx
+  · exact List.mem_append.mpr (Or.inl hx)
+
+theorem key_addOne (tgt : List Comp) (c : Comp) : ∃ x ∈ addOne tgt c, x.key = c.key := by
+  unfold addOne
+  split
+  · rename_i h
+    obtain ⟨x, hx, hk⟩ := List.any_eq_true.mp h
+    exact ⟨x, hx, by simpa using hk⟩
+  · exact ⟨c, by simp, rfl⟩
+
+theorem mem_addAll : ∀ (src tgt : List Comp) (x : Comp), x ∈ addAll src tgt → x ∈ src ∨ x ∈ tgt
+  | [], _, _, h => Or.inr h
+  | c :: cs, tgt, x, h => by
+    have h' : x ∈ addAll cs (addOne tgt c) := h
+    rcases mem_addAll cs _ x h' with h1 | h1
+    · exact Or.inl (by simp [h1])
+    · rcases mem_addOne h1 with h2 | h2
+      · exact Or.inr h2
+      · exact Or.inl (by simp [h2])
+
+theorem sub_addAll : ∀ (src tgt : List Comp), ∀ x ∈ tgt, x ∈ addAll src tgt
+  | [], _, _, h => h
+  | c :: cs, tgt, x, h => sub_addAll cs (addOne tgt c) x (sub_addOne tgt c x h)
+
+theorem key_addAll : ∀ (src tgt : List Comp), ∀ c ∈ src, ∃ x ∈ addAll src tgt, x.key = c.key
+  | [], _, _, h => by cases h
+  | c0 :: cs, tgt, c, h => by
+    rcases List.mem_cons.mp h with rfl | h
+    · obtain ⟨x, hx, hk⟩ := key_addOne tgt c
+      exact ⟨x, sub_addAll cs _ x hx, hk⟩
+    · exact key_addAll cs (addOne tgt c0) c h
+
+theorem mem_foldl_appendObj : ∀ (objs : List (Option Comp)) (acc : List Comp) (x : Comp),
+    x ∈ objs.foldl appendObj acc → x ∈ acc ∨ some x ∈ objs
+  | [], _, _, h => Or.inl h
+  | o :: os, acc, x, h => by
+    rcases mem_foldl_appendObj os (appendObj acc o) x h with h1 | h1
+    · cases o with
+      | none => exact Or.inl h1
+      | some c =>
+        simp only [appendObj] at h1
+        split at h1
+        · exact Or.inl h1
+        · rcases List.mem_append.mp h1 with h2 | h2
+          · exact Or.inl h2
+          · exact Or.inr (by simp at h2; simp [h2])
+    · exact Or.inr (by simp [h1])
+
+theorem key_inj_of_nodup : ∀ (l : List Comp), (l.map Comp.key).Nodup → ∀ a ∈ l, ∀ b ∈ l, a.key = b.key → a = b
+  | [], _, _, h, _, _, _ => by cases h
+  | c :: cs, hnd, a, ha, b, hb, hk => by
+    simp only [List.map_cons, List.nodup_cons] at hnd
+    have hnot : ∀ x ∈ cs, x.key ≠ c.key := by
+      intro x hx he
+      exact hnd.1 (he ▸ List.mem_map.mpr ⟨x, hx, rfl⟩)
+    rcases List.mem_cons.mp ha with ha' | ha'
+    · rcases List.mem_cons.mp hb with hb' | hb'
+      · rw [ha', hb']
+      · exact absurd (by rw [← hk, ha']) (hnot b hb')
+    · rcases List.mem_cons.mp hb with hb' | hb'
+      · exact absurd (by rw [hk, hb']) (hnot a ha')
+      · exact key_inj_of_nodup cs hnd.2 a ha' b hb' hk
+
+/-- the merged component list holds exactly the embedded components -/
+theorem top_merge (top : List Comp) (objs : List (Option Comp)) (hobjs : ∀ c, some c ∈ objs → c ∈ top) :
+    (∀ c, c ∈ addAll top (objs.foldl appendObj []) → c ∈ top) ∧
+    ((top.map Comp.key).Nodup → ∀ c ∈ top, c ∈ addAll top (objs.foldl appendObj [])) := by
+  have hsub : ∀ c, c ∈ addAll top (objs.foldl appendObj []) → c ∈ top := by
+    intro c hc
+    rcases mem_addAll _ _ c hc with h | h
+    · exact h
+    · rcases mem_foldl_appendObj objs [] c h with h | h
+      · cases h
+      · exact hobjs c h
+  refine ⟨hsub, ?_⟩
+  intro hnd c hc
+  obtain ⟨x, hx, hk⟩ := key_addAll top (objs.foldl appendObj []) c hc
+  have := key_inj_of_nodup top hnd x (hsub x hx) c hc hk
+  rw [← this]; exact hx
+
+theorem docAttrs_id (cfg : Cfg) (d : Doc) : strAttr cfg ([("id", AttrV.str d.id)] ++ notesAttr cfg d.notes) "id" = some d.id := by
+  simp [strAttr, lookupAttr]
+
+theorem docAttrs_notes (cfg : Cfg) (hna : cfg.notesAlways = false) (d : Doc) :
+    nonEmpty (strAttr cfg ([("id", AttrV.str d.id)] ++ notesAttr cfg d.notes) "notes") = nonEmpty d.notes := by
+  cases hn : d.notes <;> simp [strAttr, lookupAttr, notesAttr, nonEmpty, hna]
+
+/-- the constructs the format holds (and the present code handles): at most one network, and that one `NetOK` -/
+def Supported (cfg : Cfg) (d : Doc) : Prop := d.nets = [] ∨ ∃ n, d.nets = [n] ∧ NetOK cfg d.top n
+
+theorem doc_roundtrip (cfg : Cfg) (hc : CfgOK cfg) (d : Doc) (hs : Supported cfg d) :
+    ∃ d', roundTrip cfg d = .ok d' ∧ sem d' = expect cfg.r (sem d) ∧ (∀ c, c ∈ d'.top → c ∈ d.top) ∧
+      ((d.top.map Comp.key).Nodup → ∀ c ∈ d.top, c ∈ d'.top) := by
+  rcases hs with hn | ⟨n, hn, hok⟩
+  · have := top_merge d.top [] (by simp)
+    refine ⟨{ id := d.id, notes := nonEmpty (strAttr cfg ([("id", AttrV.str d.id)] ++ notesAttr cfg d.notes) "notes"),
+              nets := [], top := addAll d.top ([].foldl appendObj []) }, ?_, ?_, this.1, this.2⟩
+    · simp only [roundTrip, encodeDoc, hn, decodeDoc, docAttrs_id, bind, Except.bind, pure, Except.pure, Option.getD_some]
+    · have hnotes := docAttrs_notes cfg hc.notesAlways d
+      simp only [List.singleton_append] at hnotes
+      simp [sem, expect, hn, nonEmpty_idem, hnotes]
+  · obtain ⟨g, n', objs, h1, h2, h3, h4⟩ := net_roundtrip cfg hc d.top n hok
+    have := top_merge d.top objs h3
+    refine ⟨{ id := d.id, notes := nonEmpty (strAttr cfg ([("id", AttrV.str d.id)] ++ notesAttr cfg d.notes) "notes"),
+              nets := [n'], top := addAll d.top (objs.foldl appendObj []) }, ?_, ?_, this.1, this.2⟩
+    · simp only [roundTrip, encodeDoc, hn, h1, decodeDoc, docAttrs_id, h2, bind, Except.bind, pure, Except.pure,
+        Option.getD_some]
+    · have hnotes := docAttrs_notes cfg hc.notesAlways d
+      simp only [List.singleton_append] at hnotes
+      simp [sem, expect, hn, nonEmpty_idem, hnotes, h4]
+
+end NmlVerif.Hdf5
+
+namespace NmlVerif.Hdf5
+set_option linter.unusedSimpArgs false
+
+/-! ## refusals -/
+
+theorem collect_error_of_body : ∀ (seen : List String) (bodies : List (String × Except Err Leaf)),
+    (∃ b ∈ bodies, ∃ e, b.2 = .error e) → ∃ e, collect seen bodies = .error e
+  | _, [], h => by obtain ⟨b, hb, _⟩ := h; cases hb
+  | seen, (nm, body) :: rest, h => by
+    simp only [collect]
+    by_cases hs : nm ∈ seen
+    · exact ⟨.nodeError, by simp [hs]⟩
+    · simp only [hs, if_false]
+      cases body with
+      | error e => exact ⟨e, rfl⟩
+      | ok l =>
+        have : ∃ b ∈ rest, ∃ e, b.2 = .error e := by
+          obtain ⟨b, hb, e, he⟩ := h
+          rcases List.mem_cons.mp hb with rfl | hb
+          · cases he
+          · exact ⟨b, hb, e, he⟩
+        obtain ⟨e, he⟩ := collect_error_of_body (nm :: seen) rest this
+        exact ⟨e, by simp [he]⟩
+
+theorem encodeNet_error_of_body (cfg : Cfg) (n : Net) (h : ∃ b ∈ otherBodies cfg n, ∃ e, b.2 = .error e) :
+    ∃ e, encodeNet cfg n = .error e := by
+  unfold encodeNet
+  cases collect [] (popBodies cfg n) with
+  | error e => exact ⟨e, rfl⟩
+  | ok pl =>
+    simp only
+    split
+    · exact ⟨_, rfl⟩
+    · split
+      · exact ⟨_, rfl⟩
+      · obtain ⟨e, he⟩ := collect_error_of_body ((popBodies cfg n).map (·.1)).reverse (otherBodies cfg n) h
+        exact ⟨e, by simp [he]⟩
+
+theorem encodeNet_error_of_guard (cfg : Cfg) (n : Net) (h : n.nSynConn > 0 ∨ n.nExplicit > 0) :
+    ∃ e, encodeNet cfg n = .error e := by
+  unfold encodeNet
+  cases collect [] (popBodies cfg n) with
+  | error e => exact ⟨e, rfl⟩
+  | ok pl =>
+    simp only
+    rcases h with h | h
+    · exact ⟨.exception, by simp [h]⟩
+    · by_cases h' : n.nSynConn > 0
+      · exact ⟨.exception, by simp [h']⟩
+      · exact ⟨.exception, by simp [h', h]⟩
+
+theorem encodeDoc_error_of_net (cfg : Cfg) (d : Doc) (n : Net) (rest : List Net) (hd : d.nets = n :: rest)
+    (h : ∃ e, encodeNet cfg n = .error e) : ∃ e, encodeDoc cfg d = .error e := by
+  obtain ⟨e, he⟩ := h
+  unfold encodeDoc
+  rw [hd]
+  cases rest with
+  | nil => exact ⟨e, by simp [he]⟩
+  | cons m ms => exact ⟨e, by simp [he]⟩
+
+theorem encodeDoc_error_two_nets (cfg : Cfg) (d : Doc) (n m : Net) (rest : List Net) (hd : d.nets = n :: m :: rest) :
+    ∃ e, encodeDoc cfg d = .error e := by
+  unfold encodeDoc
+  rw [hd]
+  cases h : encodeNet cfg n with
+  | error e => exact ⟨e, by simp [h]⟩
+  | ok g => exact ⟨.nodeError, by simp [h]⟩
+
+theorem encodeGProj_empty (cfg : Cfg) (cont : Bool) (p : GProj) (h : p.all = []) :
+    encodeGProj cfg cont p = .error .indexError := by
+  simp only [GProj.all, List.append_eq_nil_iff] at h
+  simp [encodeGProj, firstConn, h.1.1, h.1.2, h.2]
+
+theorem encodeIList_empty (cfg : Cfg) (l : IList) (h : l.inputs = [] ∧ l.inputWs = []) :
+    encodeIList cfg l = .error .valueError := by
+  simp [encodeIList, h.1, h.2]
+
+theorem mapE_error_exists {α β : Type} (f : α → Except Err β) :
+    ∀ (l : List α), (∃ a ∈ l, ∃ e, f a = .error e) → ∃ e, mapE f l = .error e
+  | [], h => by obtain ⟨a, ha, _⟩ := h; cases ha
+  | a :: as, h => by
+    simp only [mapE]
+    cases hfa : f a with
+    | error e => exact ⟨e, rfl⟩
+    | ok b =>
+      have : ∃ a' ∈ as, ∃ e, f a' = .error e := by
+        obtain ⟨a', ha', e, he⟩ := h
+        rcases List.mem_cons.mp ha' with rfl | hm
+        · rw [hfa] at he; cases he
+        · exact ⟨a', hm, e, he⟩
+      obtain ⟨e, he⟩ := mapE_error_exists f as this
+      exact ⟨e, by simp [he]⟩
+
+theorem encodeProj_us (cfg : Cfg) (p : Proj) (h : ∃ c ∈ p.connWDs, c.delay.u = .us) :
+    ∃ e, encodeProj cfg p = .error e := by
+  unfold encodeProj
+  obtain ⟨c, hc, hu⟩ := h
+  have hrow : ∃ e, connWDRow cfg (hasSF p.conns || hasSF p.connWDs) c = .error e := by
+    simp only [connWDRow]
+    cases c.weight with
+    | none => exact ⟨_, rfl⟩
+    | some w => exact ⟨.valueError, by simp [delayMs, hu]⟩
+  obtain ⟨e, he⟩ := mapE_error_exists _ p.connWDs ⟨c, hc, hrow⟩
+  exact ⟨e, by simp [he]⟩
+
+end NmlVerif.Hdf5
